@@ -172,7 +172,11 @@ def worker(args, scratch):
         hl = threading.Lock()
         try:
             sh.call("init", log_dir="/var/log/azure-proxy-agent", log_level="Info")
-            sh.call("proxy_start", port=3080)   # calls listener_started itself
+            # every fifth history has no listener yet: its readiness report arrives like the other two, at a random moment, and queries
+            # (direct ones only, there is nothing to connect to) see moments at which the listener is among the subsystems not ready
+            nolistener = h % 5 == 2
+            if not nolistener:
+                sh.call("proxy_start", port=3080)   # calls listener_started itself
             latched = r.random() < 0.1
             if latched:
                 sh.call("set_channel_state", state="wireserver")
@@ -203,7 +207,10 @@ def worker(args, scratch):
                 with hl:
                     history.append({"what": "http", "t0": t0, "t1": t1, "tick": tick, "finished": j["finished"], "error": j["errorMessage"], "channel_latched": latched})
             # the listener reported ready inside proxy_start; record it as an op that completed before everything else
-            history.append({"what": "listener_started", "t0": 0, "t1": 1, "u0": 0, "u1": t_begin, "channel_latched": latched})
+            if not nolistener:
+                history.append({"what": "listener_started", "t0": 0, "t1": 1, "u0": 0, "u1": t_begin, "channel_latched": latched})
+            else:
+                cnt["histories_with_the_listener_reporting_late"] = cnt.get("histories_with_the_listener_reporting_late", 0) + 1
             ticks = [0, -5, 1, t_begin, 2 ** 100]
 
             race = h % 4 == 3   # production-shaped overlap: the last readiness report arrives while the key keeper runs the deadline handler
@@ -241,7 +248,7 @@ def worker(args, scratch):
                 rr = common.rng("c16q", args["shard"], h, qi)
                 for _ in range(rr.randrange(1, 5)):
                     time.sleep(rr.random() * 0.004)
-                    if rr.random() < 0.5:
+                    if rr.random() < 0.5 or nolistener:
                         do("query")
                     else:
                         http_query(rr.choice(ticks), rr.random() < 0.2)
@@ -260,8 +267,11 @@ def worker(args, scratch):
             os.makedirs(TAG_DIR, exist_ok=True)
             ino = subprocess.Popen(["inotifywait", "-m", "-q", "--format", "%e %f", TAG_DIR], stdout=subprocess.PIPE, stderr=subprocess.DEVNULL)
             time.sleep(0.05)
+            def listener():
+                time.sleep(r.random() * 0.006)
+                do("listener_started")
             ths = [threading.Thread(target=redirector), threading.Thread(target=keeper), threading.Thread(target=tag_reader)] + \
-                  [threading.Thread(target=querier, args=(qi,)) for qi in range(r.randrange(1, 6))]
+                  [threading.Thread(target=querier, args=(qi,)) for qi in range(r.randrange(1, 6))] + ([threading.Thread(target=listener)] if nolistener else [])
             for t in ths: t.start()
             for t in ths:
                 if t is not ths[2]:
